@@ -162,3 +162,89 @@ Proof.
   assert (0 <= r mod 4294967296)%Z by (apply Z.mod_pos_bound; lia).
   apply (Z.mod_unique r 256%Z (16777216 * (r / 4294967296))%Z (r mod 4294967296)%Z); [left; lia|lia].
 Qed.
+
+(* ---- sizes that cannot be allocated, and the capacity bound k ---- *)
+Lemma cap_reset_if_empty b : cap (reset_if_empty b) = cap b.
+Proof. unfold reset_if_empty. destruct (Nat.eqb (blen b) 0 && negb (Nat.eqb (off b) 0)); reflexivity. Qed.
+
+Lemma half_le n : n / 2 <= n.
+Proof. apply Nat.div_le_upper_bound; lia. Qed.
+
+(* beyond max_alloc grow always ends in panic(ErrTooLarge): no reslice, no small allocation, no slide, and either the
+   overflow guard or makeSlice fails *)
+Lemma too_large_true b n : (zn (cap b) <= max_alloc)%Z -> (max_alloc < n)%Z -> too_large b n = true.
+Proof.
+  intros Hc Hn. unfold too_large. unfold zn, max_alloc, max_int, small_buffer_size in *.
+  pose proof (half_le (cap b)) as Hh.
+  replace (n <=? Z.of_nat (cap b - length (bytes b)))%Z with false by (symmetry; apply Z.leb_gt; lia).
+  replace (n <=? Z.of_nat 64)%Z with false by (symmetry; apply Z.leb_gt; lia).
+  replace (n <=? Z.of_nat (cap b / 2 - blen b))%Z with false by (symmetry; apply Z.leb_gt; lia).
+  replace (281474976710656 <? 2 * Z.of_nat (cap b) + n)%Z with true by (symmetry; apply Z.ltb_lt; lia).
+  rewrite andb_false_r, orb_true_r. reflexivity.
+Qed.
+(* while even the worst-case reallocation 2c+n is allocatable, grow never panics: the overflow guard of grow is
+   unreachable there *)
+Lemma too_large_false b n : (0 <= n)%Z -> (2 * zn (cap b) + n <= max_alloc)%Z -> too_large b n = false.
+Proof.
+  intros Hn Hc. unfold too_large. unfold zn, max_alloc, max_int in *.
+  replace (9223372036854775807 - Z.of_nat (cap b) - n <? Z.of_nat (cap b))%Z with false by (symmetry; apply Z.ltb_ge; lia).
+  replace (281474976710656 <? 2 * Z.of_nat (cap b) + n)%Z with false by (symmetry; apply Z.ltb_ge; lia).
+  cbn [orb]. apply andb_false_r.
+Qed.
+(* the guard `c > maxInt-c-n` alone: whenever it fires the request is beyond max_alloc anyway (TooLarge either way) *)
+Lemma overflow_guard_is_too_large c n : (0 <= c)%Z -> (max_int - c - n < c)%Z -> (max_alloc < 2 * c + n)%Z.
+Proof. unfold max_int, max_alloc. lia. Qed.
+
+Lemma reset_if_empty_sim b s : Inv b -> live b = un s -> Rp b s ->
+  R true (reset_if_empty b) (mk (un s) (lastk s) (pre_w (pre s))).
+Proof.
+  intros HI Hl Hp. pose proof HI as (Ho & Hc & Hn). unfold reset_if_empty.
+  destruct (Nat.eqb (blen b) 0 && negb (Nat.eqb (off b) 0)) eqn:E.
+  - apply andb_prop in E. destruct E as [E _]. apply Nat.eqb_eq in E.
+    assert (Hu : un s = []) by (apply length_zero_iff_nil; rewrite <- Hl, live_len; exact E).
+    split; [|split; [|split]].
+    + unfold Inv, reset; cbn [bytes off cap isnil length]. split; [lia|split; [lia|]]. intros H. split; [reflexivity|apply Hn, H].
+    + cbn [un mk]. rewrite Hu. reflexivity.
+    + unfold Rp; cbn [pre mk]. destruct (pre s) as [[|x l]|]; cbn [pre_w]; try exact I. reflexivity.
+    + discriminate.
+  - split; [exact HI|split; [exact Hl|split; [|discriminate]]].
+    unfold Rp; cbn [pre mk]. unfold Rp in Hp. destruct (pre s) as [[|x l]|]; cbn [pre_w]; try exact I. exact Hp.
+Qed.
+
+Lemma grow_k_ge k n : (k <= grow_k k n)%Z.
+Proof. unfold grow_k. lia. Qed.
+Lemma grow_k_mono k k' n : (k <= k')%Z -> (grow_k k n <= grow_k k' n)%Z.
+Proof. unfold grow_k. lia. Qed.
+Lemma rf_k_ge sc : forall k, (k <= rf_k k sc)%Z.
+Proof. induction sc as [|x sc IH]; intros k; cbn [rf_k]; [apply grow_k_ge|]. pose proof (grow_k_ge k (Z.of_nat min_read)). pose proof (IH (grow_k k (Z.of_nat min_read))). lia. Qed.
+
+Lemma grow_cap b n b1 m : grow b n = (b1, m) -> (zn (cap b1) <= grow_k (zn (cap b)) (zn n))%Z.
+Proof.
+  unfold grow.
+  set (b' := if Nat.eqb (blen b) 0 && negb (Nat.eqb (off b) 0) then reset b else b).
+  assert (Hc : cap b' = cap b) by (subst b'; destruct (Nat.eqb (blen b) 0 && negb (Nat.eqb (off b) 0)); reflexivity).
+  clearbody b'. unfold grow_k, zn, small_buffer_size. cbv zeta.
+  destruct (Nat.leb n (cap b' - length (bytes b'))); [intros H; inversion H; subst; cbn [cap]; lia|].
+  destruct (isnil b' && Nat.leb n 64); [intros H; inversion H; subst; cbn [cap]; lia|].
+  destruct (Nat.leb n (cap b' / 2 - blen b)); intros H; inversion H; subst; cbn [cap]; lia.
+Qed.
+Lemma grow_for_write_cap b n b1 m : grow_for_write b n = (b1, m) -> (zn (cap b1) <= grow_k (zn (cap b)) (zn n))%Z.
+Proof.
+  unfold grow_for_write. destruct (Nat.leb n (cap b - length (bytes b))).
+  - intros H; inversion H; subst; cbn [cap]. apply grow_k_ge.
+  - apply grow_cap.
+Qed.
+Lemma read_from_cap sc : forall b n k, (zn (cap b) <= k)%Z -> (zn (cap (fst (read_from b sc n))) <= rf_k k sc)%Z.
+Proof.
+  induction sc as [|[chunk e] sc IH]; intros b n k Hk; cbn [read_from rf_k].
+  - destruct (grow b min_read) as [b1 i] eqn:Eg. cbn [fst]. unfold set_bytes; cbn [cap].
+    pose proof (grow_cap _ _ _ _ Eg) as H. pose proof (grow_k_mono _ _ (zn min_read) Hk). unfold zn in *. lia.
+  - destruct (grow b min_read) as [b1 i] eqn:Eg.
+    pose proof (grow_cap _ _ _ _ Eg) as H. pose proof (grow_k_mono _ _ (zn min_read) Hk) as H2.
+    assert (H1 : (zn (cap b1) <= grow_k k (Z.of_nat min_read))%Z) by (unfold zn in *; lia).
+    pose proof (rf_k_ge sc (grow_k k (Z.of_nat min_read))) as H3.
+    destruct (e =? -1)%Z; [cbn [fst]; unfold set_bytes; cbn [cap]; lia|].
+    destruct (e =? 1)%Z; [cbn [fst]; unfold set_bytes; cbn [cap]; lia|].
+    destruct (e =? 0)%Z; [|cbn [fst]; unfold set_bytes; cbn [cap]; lia].
+    apply IH. unfold set_bytes; cbn [cap]. exact H1.
+Qed.
